@@ -72,8 +72,15 @@ def dirty_written(ctx, rr):
                     if wp:
                         for pname, arg in bound_args(t, c):
                             if pname in wp and isinstance(arg, ast.Name) and arg.id in st:
-                                pair_sites.add((id(st[arg.id][0]), id(c)))
-                                st.pop(arg.id)
+                                if E.must_write_param(ctx, t, pname):
+                                    pair_sites.add((id(st[arg.id][0]), id(c)))
+                                    st.pop(arg.id)
+                                else:
+                                    # the callee writes that node only on some paths: the change may never reach the store
+                                    if report:
+                                        rr.fail(ctx.finding('R-DIRTY-WRITTEN', u, st[arg.id][0], 'node `%s` changed by %s is handed to %s, which writes it back only on '
+                                                            'some paths (line %d): the update can be lost' % (arg.id, st[arg.id][1], t.qual, c.lineno)))
+                                    st.pop(arg.id)
             if isinstance(a, ast.Assign):
                 for t in a.targets:
                     for x in names_in_target(t):
@@ -454,6 +461,32 @@ def chunk_last(ctx, rr):
                     if bad is not None:
                         rr.fail(ctx.finding('R-CHUNK-LAST', u, a, 'a further yield (line %d) is reachable after the terminal chunk was '
                                             'yielded: the last chunk is emitted twice and a surplus block is written' % bad.lineno))
+    # the is-last flag of the generic loop: `index == count - 1` over range(count), or an end-of-string test that holds exactly
+    # when the chunk reaches the end (start + size >= len)
+    node_write_ = P.method(TRIE_NODE, 'write')
+    chunk_gens = {t for c in P.own(node_write_, ast.Call) for t in P.targets(c) if t.is_gen}
+    for u in P.units:
+        if u not in chunk_gens:
+            continue
+        for f in P.own(u, ast.For):
+            for y in ast.walk(f):
+                if isinstance(y, ast.Yield) and isinstance(y.value, ast.Tuple) and len(y.value.elts) == 2 and not isinstance(y.value.elts[0], ast.Constant):
+                    flag = y.value.elts[0]
+                    ok = None
+                    if isinstance(f.iter, ast.Call) and isinstance(f.iter.func, ast.Name) and f.iter.func.id == 'range' and len(f.iter.args) == 1 \
+                            and isinstance(f.target, ast.Name):
+                        I, Ncount = f.target.id, ast.unparse(f.iter.args[0])
+                        txt = ast.unparse(flag).replace(' ', '')
+                        if txt in ('%s==%s-1' % (I, Ncount), '%s-1==%s' % (Ncount, I), '%s+1==%s' % (I, Ncount), '%s>=%s-1' % (I, Ncount)):
+                            ok = True
+                        elif isinstance(flag, ast.Compare):
+                            ok = False
+                    if ok is None:
+                        raise AnalysisError('R-CHUNK-LAST: is-last expression `%s` of %s not recognised' % (ast.unparse(flag), u.qual))
+                    rr.ob(ctx.where(u, y), 'the is-last flag `%s` is true exactly on the last iteration of the chunk loop' % ast.unparse(flag), ok=ok)
+                    if not ok:
+                        rr.fail(ctx.finding('R-CHUNK-LAST', u, y, 'the is-last flag `%s` is not `index == count - 1`: for some lengths (exact multiples of the chunk size) the '
+                                            'last chunk is not marked last, so the last tail block keeps HAS_TAIL and reads run into the next node' % ast.unparse(flag)))
     # the tail writer must consume such a generator
     node_write = P.method(TRIE_NODE, 'write')
     gens = [t for c in P.own(node_write, ast.Call) for t in P.targets(c) if t.is_gen]
